@@ -976,3 +976,69 @@ def _(v):
         except Exception as ex:
             ok, det = False, "%r -> %r" % (r, ex)
         v.prove(label + ".coefficients_keep_their_units", ok, detail=det[:300])
+
+
+@harness("C09", "array_helpers_on_arrays_of_more_than_one_dimension", functions=[U + ":concatenate", U + ":tile", U + ":polyval", U + ":linspace", U + ":logspace_from_lin", U + ":<module patched_numpy>"], kind="data")
+def _(v):
+    """'concatenation, tiling ... return what the plain numerical routine returns on the magnitudes expressed in one common unit, times that unit'
+    -- with the numerical routine's OWN defaults and keywords, whatever the number of dimensions of the parts (the symbolic harness fixes the
+    delegation shape on lists of scalars only): blocks of rows in different units are joined along the first axis when no axis is asked for, along
+    the axis asked for otherwise (axis=None: flattened), parts that do not fit or are of another dimension are refused; tiling follows the
+    repetition count per axis; the number of points of a spacing left out is the numerical routine's (50).  Expected values typed in by hand (in
+    metre), compared as physical values -- which common unit the result carries is not part of the property"""
+    import numpy as np
+    from chempy import units as CU
+    from chempy.units import default_units as u, patched_numpy as pn
+
+    def in_metre(q):
+        return np.asarray(CU.to_unitless(q, u.metre), dtype=float)
+
+    def same(got, want):
+        want = np.asarray(want, dtype=float)
+        return got.shape == want.shape and bool(np.allclose(got, want, rtol=1e-12, atol=0))
+
+    def check(name, f, want, conv=in_metre):
+        try:
+            got = conv(f())
+            ok, det = same(got, want), "shape %r: %r" % (got.shape, got.tolist())
+        except Exception as ex:
+            ok, det = False, repr(ex)
+        v.prove(name, ok, detail=det[:300])
+
+    def refused(name, f):
+        try:
+            ok, det = False, "returned %r" % (f(),)
+        except (ValueError, TypeError) as ex:                       # numpy's / the quantities package's 'does not fit' / 'cannot convert'
+            ok, det = True, repr(ex)
+        except Exception as ex:
+            ok, det = False, repr(ex)
+        v.prove(name, ok, detail=det[:300])
+    a = np.array([[1.0, 2.0], [3.0, 4.0]]) * u.metre                # two rows of two columns, in m
+    b = np.array([[5.0, 6.0], [7.0, 8.0]]) * u.centimetre           # ... in cm
+    c = np.array([[9.0, 10.0]]) * u.km                              # ONE row of two columns, in km
+    for label, cat in (("concatenate", CU.concatenate), ("patched_numpy.concatenate", pn.concatenate)):
+        check(label + ".blocks_of_rows_are_stacked_along_the_first_axis_by_default", lambda: cat((a, b)), [[1, 2], [3, 4], [.05, .06], [.07, .08]])
+        check(label + ".axis_0_is_the_default", lambda: cat((a, b), axis=0), [[1, 2], [3, 4], [.05, .06], [.07, .08]])
+        check(label + ".axis_1_appends_columns", lambda: cat((a, b), axis=1), [[1, 2, .05, .06], [3, 4, .07, .08]])
+        check(label + ".axis_none_flattens", lambda: cat((a, b), axis=None), [1, 2, 3, 4, .05, .06, .07, .08])
+        check(label + ".blocks_with_different_numbers_of_rows", lambda: cat((a, c, b)), [[1, 2], [3, 4], [9000, 10000], [.05, .06], [.07, .08]])
+        check(label + ".three_dimensional_parts", lambda: cat((a.reshape(1, 2, 2), b.reshape(1, 2, 2))), [[[1, 2], [3, 4]], [[.05, .06], [.07, .08]]])
+        check(label + ".one_dimensional_parts_of_different_length", lambda: cat(([1.0, 2.0] * u.km, [3.0] * u.metre, [4.0, 5.0] * u.centimetre)), [1000, 2000, 3, .04, .05])
+        refused(label + ".different_numbers_of_rows_side_by_side_refused", lambda: cat((a, c), axis=1))
+        refused(label + ".part_of_another_dimension_refused", lambda: cat((a, np.array([[1.0, 2.0]]) * u.second)))
+    for label, til in (("tile", CU.tile), ("patched_numpy.tile", pn.tile)):
+        check(label + ".row_repeated_downwards", lambda: til(c, (2, 1)), [[9000, 10000], [9000, 10000]])
+        check(label + ".row_repeated_sideways_by_a_plain_count", lambda: til(c, 2), [[9000, 10000, 9000, 10000]])
+        check(label + ".block_repeated_per_axis", lambda: til(b, (1, 2)), [[.05, .06, .05, .06], [.07, .08, .07, .08]])
+        check(label + ".one_dimensional_to_two_dimensional", lambda: til([1.0, 2.0] * u.centimetre, (2, 2)), [[.01, .02, .01, .02], [.01, .02, .01, .02]])
+        check(label + ".nested_list_of_mixed_units", lambda: til([[1 * u.km, 2 * u.metre]], (2, 1)), [[1000, 2], [1000, 2]])
+    # evaluation of a polynomial keeps the shape of the points: 1 km + (2 km/min) t at 0, 30, 60, 90 s (0, 1/2, 1, 3/2 min) is 1, 2, 3, 4 km
+    check("polyval.two_dimensional_points", lambda: CU.polyval([2 * u.km / u.minute, 1 * u.km], np.array([[0.0, 30.0], [60.0, 90.0]]) * u.second), [[1000, 2000], [3000, 4000]])
+    # number of points left out: the numerical routine's own default (50), end points included
+    for label, f, second in (("linspace", CU.linspace, 1 + 999 / 49.0), ("logspace_from_lin", CU.logspace_from_lin, 1000 ** (1 / 49.0))):
+        try:
+            got = in_metre(f(1 * u.metre, 1 * u.km))
+            ok, det = got.shape == (50,) and abs(got[0] - 1) < 1e-12 and abs(got[-1] / 1000 - 1) < 1e-12 and abs(got[1] / second - 1) < 1e-12, "shape %r: %r ..." % (got.shape, got[:3].tolist())
+        except Exception as ex:
+            ok, det = False, repr(ex)
+        v.prove(label + ".default_number_of_points_is_the_numerical_routines", ok, detail=det)
